@@ -291,4 +291,45 @@ def run(rep, tier):
            "authorization looks up the bound key without consulting the database registry", sa.file + ":%d" % sa.line)
     direct = any(e.dest.l == 0 for e in sa.calls_named(r"auth::authorize$"))
     rep.ob("R14.6", "result-forwarded|AppState::authorize", direct, "AppState::authorize returns the decision of auth::authorize unchanged", sa.file + ":%d" % sa.line)
+    # ------------------------------------------------------------------ R14.7 the key comparison looks at every byte
+    rep.rule("R14.7", "constant_time_eq folds every byte pair into its accumulator (acc = acc | (x ^ y)) and answers acc == 0; "
+                      "ApiKeyHash::verify goes through it", floor=1)
+    cte = prog.fn("anda_db_server::api::constant_time_eq")
+    rep.saw(cte, len(cte.events))
+    accs = set()
+    for b in cte.live_blocks():
+        for st in cte.stmts(b):
+            if st[0] == "A" and st[1]["l"] == 0 and st[2]["k"] == "bin" and st[2]["op"] == "Eq":
+                for o in (st[2]["a"], st[2]["b"]):
+                    p_ = core.op_place(o)
+                    while p_ is not None:
+                        accs.add(p_.l)
+                        ds = [d for d in cte.defs.get(p_.l, []) if d[2] == "assign" and d[3][2]["k"] == "use"]
+                        p_ = core.op_place(ds[0][3][2]["o"]) if len(ds) == 1 and len(cte.defs.get(p_.l, [])) == 1 else None
+    acc = [l for l in accs if len(cte.defs.get(l, [])) >= 2]
+    ok, why, site = bool(acc), "no loop-carried accumulator feeds the final `== 0`", cte.file + ":%d" % cte.line
+    for l in acc:
+        for (b, i, kind, data) in cte.defs.get(l, []):
+            if kind != "assign":
+                ok, why = False, "accumulator written by a call"
+                continue
+            rv = data[2]
+            if rv["k"] == "use" and core.op_const(rv["o"]) is not None:
+                continue                    # initialisation
+            folds = rv["k"] == "bin" and rv["op"] == "BitOr" and any(core.op_place(o) is not None and core.op_place(o).l == l and not core.op_place(o).p
+                                                                     for o in (rv["a"], rv["b"]))
+            if not folds:
+                ok, why, site = False, "an update of the accumulator does not OR the previous value in (only the last byte pair would decide)", "%s:%d" % (cte.file, data[3] if len(data) > 3 else cte.line)
+    if acc:
+        rep.ob("R14.7", "folds-every-byte|constant_time_eq", ok, why, site)
+    else:
+        # another idiom (iterator fold, a library comparison): nothing recognisable to decide on - say so instead of guessing
+        rep.note("R14.7-not-decided", "constant_time_eq has no loop-carried accumulator in the recognised form; the fold clause is not decided on this tree")
+    ver = prog.fn("anda_db_server::auth::ApiKeyHash::verify") if prog.has_fn("anda_db_server::auth::ApiKeyHash::verify") else None
+    if ver is None:
+        raise CheckerFault("anchor missing: ApiKeyHash::verify")
+    rep.saw(ver, len(ver.events))
+    rep.ob("R14.7", "verify-uses-constant-time-eq|ApiKeyHash::verify", bool(ver.calls_named(r"api::constant_time_eq$")) and
+           not ver.calls_named(r"PartialEq.*::(eq|ne)$"),
+           "key digests are compared through constant_time_eq only", ver.file + ":%d" % ver.line)
     return rep.finish(EXPLAIN)
